@@ -1090,8 +1090,10 @@ class Model:
             self._nodes, self._vars = deepcopy((self._nodes, self._vars))
 
         for node in self._nodes.values():
-            node._clear_outputs()
+            # _set_model() raises if the node belongs to another model, which must
+            # happen before the outputs recorded by that model are cleared
             node._set_model(self)
+            node._clear_outputs()
 
         for node in self._nodes.values():
             for _input in node.all_input_nodes():
